@@ -361,12 +361,16 @@ def build_value(world, dom, name):
         from . import heapmodel as HM
         cls = resolve_ref(world, 'pycel.excelcompiler:ExcelCompiler')
         obj = SObj(cls, {'cycles': dom.cycles, 'cell_map': HM.SCellMap(), 'dep_graph': HM.SGraph(),
-                         'log': HM.Dummy()})
+                         'log': HM.Dummy(), 'evaluate': Builtin('evaluate', HM.heap_evaluate)})
         return obj, Decoder(lambda m: {'$heap_compiler': True})
     if isinstance(dom, S.HeapCell):
         from . import heapmodel as HM
         n = z3.Const(name, HM.Node)
         return HM.heap_cell(world.interp, n), Decoder(lambda m: {'$node': str(m.eval(n, model_completion=True))})
+    if isinstance(dom, S.HeapSet):
+        from . import heapmodel as HM
+        HM.declare_heap_set(dom.name)
+        return HM.SNodeSet(dom.name), Decoder(lambda m: {'$heap_set': dom.name})
     if isinstance(dom, S.OpaqueV):
         from . import heapmodel as HM
         t = z3.Const(name, HM.V)
@@ -613,7 +617,8 @@ class Verifier:
         self.world.external['pyvc.spec.same_call'] = Builtin('same_call', sx_same_call)
         from . import heapmodel as _HM
         for _n in ('cached', 'old_cached', 'same_value', 'value_is', 'succ', 'same_node', 'in_done', 'forall_nodes',
-                   'reads', 'computed', 'holds_f', 'old_holds_f', 'in_map', 'cell_at'):
+                   'reads', 'computed', 'holds_f', 'old_holds_f', 'in_map', 'cell_at', 'in_set', 'old_in_set',
+                   'has_formula', 'old_has_formula', 'same_formula', 'is_range'):
             self.world.external['pyvc.heapspec.' + _n] = Builtin(_n, getattr(_HM, 'sx_' + _n))
         from . import records as _REC
         for _n, _f in _REC.SPEC_BUILTINS.items():
@@ -818,7 +823,14 @@ class Verifier:
         defenv = func.env if func.env is not None else Env({}, None, func.module)
         interp.bind_args(func.node, args, kwargs, env, defenv, node)
         names = list(c.params[0] if isinstance(c.params, (list, tuple)) else c.params)
-        vals = [env.vars[p] for p in names]
+        vals = []
+        for p in names:
+            if p in env.vars:
+                vals.append(env.vars[p])
+            elif p in getattr(c, 'free_vars', ()) and func.env is not None:
+                vals.append(func.env.lookup(p))       # a free variable of the nested function
+            else:
+                raise Unsupported(f'parameter {p} of the contract of {c.name} is not bound at this call', node)
         if c.when is not None:
             applies = self.eval_spec(c.when, vals, 'goal')
             if not isinstance(applies, bool):
@@ -982,6 +994,7 @@ class Verifier:
                     byname = dict(zip(names, args))
                     fenv = Env({k: byname[k] for k in c.free_vars}, None, closure.module)
                     target = Closure(closure.node, fenv, closure.module, closure.name)
+                    fenv.vars.setdefault(closure.node.name, target)      # a nested function may call itself by name
                 if getattr(c, 'prepare', None) is not None:
                     c.prepare(self, self.interp, target, dict(zip(names, args)))
                     if getattr(c, 'record', False):
